@@ -4,4 +4,6 @@ CONSTANT Alphabet <- FullAlphabet
 INVARIANT GrammarSound
 INVARIANT ParseTotal
 INVARIANT EmptyRejected
+INVARIANT RangesNest
+INVARIANT SubtextReparses
 CHECK_DEADLOCK FALSE
